@@ -232,3 +232,84 @@ func famCommandsWide(L int) []func(slot int) {
 	rep.Extra("command_wide_line_max_symbols", L)
 	return jobs
 }
+
+// Family (e3): spellings. Literal names of real command trees (kick, list uuids, say, stop, k, s, sk) with every letter
+// replaced by every member of its case-folding orbit: lower case, upper case and the non-ASCII code points that fold
+// to it (U+212A KELVIN SIGN -> k, U+017F LONG S -> s, U+0130 / U+0131 dotted / dotless i). A dispatcher that starts
+// to match names ignoring case meets strings whose folded form equals a literal while their byte length does not.
+// Every combination of spellings along every path of the graph, alone, with a trailing blank and with an argument.
+var foldOrbit = map[rune][]string{
+	'k': {"k", "K", "\u212a"},
+	's': {"s", "S", "\u017f"},
+	'i': {"i", "I", "\u0130", "\u0131"},
+}
+
+func spellings(word string) []string {
+	out := []string{""}
+	for _, r := range word {
+		orbit, ok := foldOrbit[r]
+		if !ok {
+			orbit = []string{string(r), strings.ToUpper(string(r))}
+		}
+		var next []string
+		for _, p := range out {
+			for _, o := range orbit {
+				next = append(next, p+o)
+			}
+		}
+		out = next
+	}
+	return out
+}
+
+func spellingGraph() graphSpec {
+	return graphSpec{"kick(arg),list->uuids,say(greedy),stop,k,s,sk", func() *command.Graph {
+		g := command.NewGraph()
+		g.AppendLiteral(g.Literal("kick").AppendArgument(g.Argument("who", command.StringParser(0)).HandleFunc(okHandler)).Unhandle())
+		g.AppendLiteral(g.Literal("list").AppendLiteral(g.Literal("uuids").HandleFunc(okHandler)).HandleFunc(okHandler))
+		g.AppendLiteral(g.Literal("say").AppendArgument(g.Argument("msg", command.StringParser(2)).HandleFunc(okHandler)).Unhandle())
+		g.AppendLiteral(g.Literal("stop").HandleFunc(okHandler))
+		g.AppendLiteral(g.Literal("k").HandleFunc(okHandler))
+		g.AppendLiteral(g.Literal("s").HandleFunc(errHandler))
+		g.AppendLiteral(g.Literal("sk").Unhandle())
+		return g
+	}}
+}
+
+func famCommandSpellings() []func(slot int) {
+	gs := spellingGraph()
+	paths := [][]string{{"kick"}, {"list"}, {"list", "uuids"}, {"say"}, {"stop"}, {"k"}, {"s"}, {"sk"}}
+	var jobs []func(slot int)
+	for _, path := range paths {
+		path := path
+		jobs = append(jobs, func(slot int) {
+			lines := []string{""}
+			for i, w := range path {
+				var next []string
+				for _, p := range lines {
+					for _, sp := range spellings(w) {
+						if i > 0 {
+							next = append(next, p+" "+sp)
+						} else {
+							next = append(next, sp)
+						}
+					}
+				}
+				lines = next
+			}
+			var n int64
+			for _, l := range lines {
+				for _, tail := range []string{"", " ", " x", " \"q r\"", "x", "\u212a"} {
+					runCommand(slot, gs, l+tail)
+					n++
+				}
+			}
+			rep.Eval(n)
+			rep.Count("command_executions_spellings", n)
+			rep.NonTrivial(n)
+			rep.AddStates(n)
+		})
+	}
+	rep.Extra("command_spelling_graph", gs.name)
+	return jobs
+}
